@@ -924,9 +924,38 @@ class Tensor:
         _sym_index_set(self.a, idx2, v)
 
     def index_put_(self, indices, values, accumulate=False):
-        if accumulate:
-            raise Unsupported("index_put_ accumulate")
-        self[tuple(indices)] = values
+        if not accumulate:
+            self[tuple(indices)] = values
+            return self
+        # accumulate=True: every index tuple adds its value (duplicates add up), unlike `x[idx] += v`
+        idx = [i.a if isinstance(i, Tensor) else np.asarray(i, dtype=object) for i in indices]
+        S = np.broadcast_shapes(*[np.shape(i) for i in idx])
+        idx = [np.broadcast_to(i, S) for i in idx]
+        vals = np.broadcast_to(values.a if isinstance(values, Tensor) else values, S + self.a.shape[len(idx):])
+        for pos in np.ndindex(*S):
+            ii = [i[pos] for i in idx]
+            sym_axes = [k for k, i in enumerate(ii) if is_sym(i)]
+            for k in sym_axes:
+                explore.EXP.obligation("index_put_ index in range", z3.And(ii[k] >= 0, ii[k] < self.a.shape[k]))
+            for combo in itertools.product(*[range(self.a.shape[k]) if k in sym_axes else [_pyint(ii[k])] for k in range(len(ii))]):
+                cond = True
+                for k in sym_axes:
+                    cond = s_and(cond, ii[k] == combo[k])
+                tgt = self.a[combo]
+                if isinstance(tgt, np.ndarray):
+                    tgt[...] = U_WHERE(cond, U_ADD(tgt, vals[pos]), tgt)
+                else:
+                    self.a[combo] = s_where(cond, s_add(tgt, vals[pos]), tgt)
+        return self
+
+    def index_add_(self, dim, index, source):
+        ind = [slice(None)] * (dim % self.a.ndim)
+        moved = np.moveaxis(self.a, dim % self.a.ndim, 0)
+        src = np.moveaxis(source.a, dim % self.a.ndim, 0)
+        for k, i in enumerate(index.a.reshape(-1)):
+            if is_sym(i):
+                raise Unsupported("index_add_ with symbolic index")
+            moved[_pyint(i)] = U_ADD(moved[_pyint(i)], src[k])
         return self
 
     def index_fill_(self, dim, index, value):
